@@ -128,6 +128,10 @@ def render_enum(gen, name, ty):
         src.append("#[sorted_constructors]")
     src.append("pub enum %s {" % name)
     from_arms, to_arms = [], []
+    # C-like enums: every other one is spelled with explicit discriminants (descending, with gaps) - the constructor
+    # index of the format is the position in constructor order, whatever the in-memory discriminant is
+    c_like = all(v["shape"] == "unit" for v in ty["variants"]) and len(ty["variants"]) >= 2 \
+        and int(hashlib.sha1(key(ty).encode()).hexdigest()[:4], 16) % 2 == 0
     for i, var in enumerate(ty["variants"]):
         vn = name_str(var["n"])
         attrs = []
@@ -139,7 +143,7 @@ def render_enum(gen, name, ty):
         fields = var["fields"]
         fnames = [name_str(f["n"]) for f in fields]
         if var["shape"] == "unit":
-            body = vn
+            body = vn if not c_like else "%s = %d" % (vn, 3 * (len(ty["variants"]) - i) + 1)
             from_arms.append("%d => %s::%s," % (i + 1, name, vn))
             to_arms.append("%s::%s => serde_json::json!([21, %d])," % (name, vn, i + 1))
         elif var["shape"] == "tuple":
